@@ -249,7 +249,10 @@ def _model_waveforms(rng, k):
                 w = np.r_[np.zeros(4), w, np.zeros(5)] * -1.0    # padded, inverted polarity
             elif form == 3:
                 w = w.astype(np.float32)
-            out.append((f"model{i}/trace{int(tr)}/form{form}", w))
+            # every residue of the length modulo 4 (and so every rounding case of the correlation centre n/2)
+            pad = len(out) % 4
+            w = np.r_[w, np.zeros(pad, dtype=w.dtype)]
+            out.append((f"model{i}/trace{int(tr)}/form{form}/len{w.size}", w))
     return out
 
 
